@@ -199,12 +199,13 @@ pub fn run_check(check: &dyn Check, tier: Tier) -> i32 {
     let total = n_corpus + runs;
 
     let absorb = |idx: u64, sc: &Scenario, rep: Report| {
+        let sc_hash = if rep.nontrivial { sc.hash() } else { 0 };
         let mut a = agg.lock().unwrap();
         a.evaluations += 1;
         a.sub_runs += rep.sub_runs.max(1);
         *a.modes.entry(sc.mode.clone()).or_insert(0) += 1;
         if rep.nontrivial {
-            a.nontrivial_hashes.insert(sc.hash());
+            a.nontrivial_hashes.insert(sc_hash);
         }
         if rep.multi_enabled_points > 0 {
             a.interleavings.insert(rep.interleaving_sig);
